@@ -61,6 +61,8 @@ func runC11(p *Prog, r *Report) {
 	c11Storage(p, r)
 	c11Probe(p, r)
 	c11HashOrder(p, r)
+	c11MemberHashOnly(p, r, impls)
+	r.Floor("R11.6-member-hash-only", 10)
 	r.Floor("R11.1-typed-equality", 10)
 	r.Floor("R11.2-hash-subset", 10)
 	r.Floor("R11.3-no-aliasing", 20)
@@ -389,6 +391,7 @@ type probeShape struct {
 	step        int64
 	absentTest  bool
 	equalRecv   string // "new" when the probing value is the receiver of Equal
+	otherExits  []string // exits of the probe loop decided by anything but the absent test or the Equal result
 	fn          *ssa.Function
 }
 
@@ -444,6 +447,56 @@ func probeOf(p *Prog, fn *ssa.Function) (*probeShape, bool) {
 				}
 			}
 		})
+		// exits of the probe loop: only "slot is free" and "Equal said yes" may end the probe. (The slot counter is
+		// allowed to wrap; a bound on it would make lookup and insertion disagree about members stored past the wrap.)
+		var okv, eqv ssa.Value
+		for _, u := range *ph.Referrers() {
+			if lk, ok := u.(*ssa.Lookup); ok && lk.CommaOk && lk.Index == ssa.Value(ph) {
+				okv = extractOf(lk, 1)
+			}
+		}
+		forEachInstr(fn, func(in2 ssa.Instruction) {
+			if c, ok := in2.(*ssa.Call); ok && c.Call.IsInvoke() && c.Call.Method.Name() == "Equal" && len(c.Call.Args) == 1 {
+				eqv = c
+			}
+		})
+		for _, l := range loopsOf(fn) {
+			if l.Header != ph.Block() {
+				continue
+			}
+			for b := range l.Body {
+				iff, isIf := lastInstr(b).(*ssa.If)
+				leaves := false
+				for _, sc := range b.Succs {
+					if !l.Body[sc] {
+						leaves = true
+					}
+				}
+				if !leaves {
+					continue
+				}
+				if !isIf {
+					sh.otherExits = append(sh.otherExits, p.pos(lastInstr(b).Pos()))
+					continue
+				}
+				g := flattenGuard(Guard{Cond: iff.Cond, Pol: true, If: iff})
+				if okv != nil && g.Cond == okv || eqv != nil && g.Cond == eqv {
+					continue
+				}
+				// a trip counter bounded by the number of occupied slots can never end the probe early: after
+				// len(m)+1 probes a free slot must have been seen
+				if bo, ok := g.Cond.(*ssa.BinOp); ok && okv != nil {
+					lk := okv.(*ssa.Extract).Tuple.(*ssa.Lookup)
+					cnt, isPhi := bo.X.(*ssa.Phi)
+					ln, isLen := bo.Y.(*ssa.Call)
+					if isPhi && isLen && cnt != ph && bo.Op == token.LEQ && isBuiltin(&ln.Call, "len") && describeVal(ln.Call.Args[0]) == describeVal(lk.X) && describeVal(lk.X) != "" && counterFromZero(cnt) {
+						continue
+					}
+				}
+				sh.otherExits = append(sh.otherExits, p.pos(iff.Cond.Pos()))
+			}
+		}
+		sort.Strings(sh.otherExits)
 		ps = sh
 	})
 	return ps, ps != nil
@@ -467,6 +520,8 @@ func c11Probe(p *Prog, r *Report) {
 	}
 	same := a.startIsHash && b.startIsHash && a.step == b.step && a.step == 1 && a.absentTest && b.absentTest && a.equalRecv == b.equalRecv && a.equalRecv != "?" && a.equalRecv != ""
 	r.Check(same, rule, "types.NewSet~Set.Contains", p.pos(look.Pos()), "insertion and lookup probe identically ("+desc(a)+")", "insertion probes with ["+desc(a)+"] but lookup with ["+desc(b)+"]: a member stored after a collision would not be found")
+	r.Check(len(a.otherExits) == 0 && len(b.otherExits) == 0, rule, "types.NewSet~Set.Contains:exits", p.pos(look.Pos()), "both probe loops end only on a free slot or an equal member",
+		"a probe loop has an exit that is decided by something other than `slot is free` or `member is equal` (insertion: ["+strings.Join(a.otherExits, ", ")+"], lookup: ["+strings.Join(b.otherExits, ", ")+"]): the slot counter wraps around in the other loop, so a member stored past the bound is never found (or never stored)")
 	// insertion: absent slot => store the value at that key; duplicate => stop
 	storeOK := false
 	forEachInstr(ins, func(in ssa.Instruction) {
@@ -631,4 +686,59 @@ func nonNilAlternatives(v ssa.Value) []ssa.Value {
 		}
 	}
 	return out
+}
+
+// counterFromZero: phi [0, phi+1].
+func counterFromZero(ph *ssa.Phi) bool {
+	zero, inc := false, false
+	for _, e := range ph.Edges {
+		if k, isK := constInt(e); isK && k == 0 {
+			zero = true
+		} else if bo, ok := e.(*ssa.BinOp); ok && bo.Op == token.ADD && bo.X == ssa.Value(ph) {
+			if k, isK := constInt(bo.Y); isK && k == 1 {
+				inc = true
+			}
+		} else {
+			return false
+		}
+	}
+	return zero && inc
+}
+
+// R11.6: the functions that compute a value's hash (the hash methods, and the two constructors that cache one) look at a
+// nested member only through the member's own hash (and, while inserting into a set, its Equal). Any other view of a
+// member — its Cedar or JSON text, its String — is not known to be the same for equal members (a set prints in slot order,
+// which depends on insertion order when member hashes collide), so feeding it into the hash lets equal values hash apart.
+func c11MemberHashOnly(p *Prog, r *Report, impls []types.Type) {
+	const rule = "R11.6-member-hash-only"
+	var fns []*ssa.Function
+	for _, t := range impls {
+		if h := methodOf(p, t, "hash"); h != nil {
+			fns = append(fns, h)
+		}
+	}
+	for _, n := range []string{"NewSet", "NewRecord"} {
+		if f := p.fn(pTypes, n); f != nil {
+			fns = append(fns, f)
+		} else {
+			r.Anchor(rule, "types."+n)
+		}
+	}
+	for _, top := range fns {
+		var other []string
+		for _, f := range withAnon(top) {
+			for _, c := range callsIn(f) {
+				cc := c.Common()
+				if !cc.IsInvoke() || !typeIs(cc.Value.Type(), pTypes, "Value") {
+					continue
+				}
+				if m := cc.Method.Name(); m != "hash" && m != "Equal" {
+					other = append(other, m+" at "+p.pos(c.Pos()))
+				}
+			}
+		}
+		sort.Strings(other)
+		r.Check(len(other) == 0, rule, fnQual(top), p.pos(top.Pos()), "nested members are seen only through hash/Equal",
+			fnQual(top)+" computes a hash and looks at a nested member through ["+strings.Join(other, "; ")+"]: only the member's own hash is known to agree for equal members, so equal values may now hash differently")
+	}
 }
